@@ -13,6 +13,8 @@ STRICT = ["-std=c17", "-Wall", "-Werror=implicit-function-declaration", "-Werror
 
 def scoped_all(chk, d, ents):
     from .c17 import _NoOpt
+    from .. import scope_checks as SC
+    summary = SC.new_summary()
     for e in ents:
         for tag, ctx in (("opt", None), ("noopt", _NoOpt())):
             try:
@@ -31,6 +33,11 @@ def scoped_all(chk, d, ents):
                 if r[0] != "ok":
                     chk.violation(f"c19:scope:{r[1] if len(r) > 1 else '?'}:{e.name}",
                                   f"generated kernel violates C block scoping: {' '.join(r)}", {"kernel": c.name, "variant": tag, "reply": r})
+                else:
+                    # certificate of kernel_flat_faithful: the flat semantics used by all other theorems is faithful
+                    # to C's block scoping on this kernel (no use of a clobbered outer name, uniform declaration kinds)
+                    SC.check_scope_kernel(chk, d, c, tag, e.name, summary)
+    SC.note_summary(chk, summary)
 
 
 def rule_pair_entries(seed, n):
@@ -62,6 +69,36 @@ def rule_pair_entries(seed, n):
         f = Coefficient(V)
         return [f * v * dx(degree=6) + f * f * v * dx(degree=6, scheme="GLL")]
     out.append(corpus.Entry("rules_interval_default_gll_6", gll, tags=("c19",)))
+    out += equal_size_rule_entries()
+    return out
+
+
+def equal_size_rule_entries():
+    """Two DIFFERENT rules with the SAME number of points in one kernel (anything keyed by the point count instead
+    of the rule would confuse them): found by tabulating the rules, not hard-wired."""
+    import basix
+    out = []
+    for cell, fam in (("triangle", "P"), ("tetrahedron", "P"), ("quadrilateral", "Q"), ("interval", "P")):
+        ct = getattr(basix.CellType, cell)
+        rules = []
+        for q in range(0, 9):
+            pts, _ = basix.make_quadrature(ct, q)
+            rules.append((int(q), "default", pts))
+        nv = len(basix.geometry(ct))
+        rules.append((1, "vertex", basix.geometry(ct)))
+        found = []
+        for i in range(len(rules)):
+            for j in range(i + 1, len(rules)):
+                a, b = rules[i], rules[j]
+                if a[2].shape[0] == b[2].shape[0] and not (a[2].shape == b[2].shape and np.allclose(a[2], b[2])):
+                    found.append((a[:2], b[:2]))
+        for (qa, sa), (qb, sb) in found[:2]:
+            def b(cell=cell, fam=fam, qa=qa, sa=sa, qb=qb, sb=sb):
+                m, V = corpus.space(cell, fam, 1)
+                u, v = TrialFunction(V), TestFunction(V)
+                f = Coefficient(V)
+                return [f * u * v * dx(degree=qa, scheme=sa) + f * f * u * v * dx(degree=qb, scheme=sb), f * v * dx(degree=qa, scheme=sa) + v * dx(degree=qb, scheme=sb)]
+            out.append(corpus.Entry(f"rules_equal_size_{cell}_{qa}{sa[0]}_{qb}{sb[0]}", b, tags=("c19",)))
     return out
 
 
@@ -112,6 +149,9 @@ def malformed_stream():
     add("abs_of_arg", lambda: (lambda m, V, u, v, f: [abs(v) * dx])(*sp()))
     add("custom_integral", lambda: (lambda m, V, u, v, f: [f * v * ufl.Measure("dc", domain=m)])(*sp()))
     add("vertex_dg", lambda: (lambda m, V, u, v, f: [f * v * ufl.dP])(*sp(fam="DP")))
+    # discontinuous COEFFICIENT at a vertex (continuous / no arguments): the value is not single valued either
+    add("vertex_dg_coefficient", lambda: (lambda m, V, u, v, f: [sp(fam="DP")[4] * v * ufl.dP])(*sp()))
+    add("vertex_dg_functional", lambda: (lambda m, V, u, v, f: [f * ufl.dP])(*sp(fam="DP")))
     add("negative_subdomain", lambda: (lambda m, V, u, v, f: [f * v * dx(-3)])(*sp()))
     add("empty_form", lambda: (lambda m, V, u, v, f: [0 * f * v * dx])(*sp()))
     add("prism_interior_facet", lambda: (lambda m, V, u, v, f: [f("+") * v("-") * dS])(*sp("prism")))
@@ -148,6 +188,8 @@ def run(chk):
     chk.exhaustive = True
     chk.lean("FfcxProofs.C19", ["Ffcx.LNodes.rule_ids_distinct", "Ffcx.LNodes.declare_spec", "Ffcx.LNodes.declare_mono",
                                "Ffcx.LNodes.scoped_inv", "Ffcx.LNodes.scopedL_inv"])
+    from .. import scope_checks as SC
+    chk.lean(SC.SCOPE_MODULE, SC.SCOPE_THEOREMS, extra_files=SC.SCOPE_FILES)
     chk.lean("FfcxProofs.Lemmas.TablesFactorize", ["Ffcx.IR.factorize_rejects", "Ffcx.IR.factorize_rejects_nonlinear", "Ffcx.IR.factorize_rejects_divisor"])
     ents = corpus.fixed() + corpus.expressions()
     rp = rule_pair_entries(chk.seed, 6 if chk.tier == "quick" else 40)
